@@ -11,9 +11,15 @@ import (
 	"fmt"
 	tmed25519 "github.com/cometbft/cometbft/crypto/ed25519"
 	authtypes "github.com/cosmos/cosmos-sdk/x/auth/types"
+	upgradetypes "github.com/cosmos/cosmos-sdk/x/upgrade/types"
+	"github.com/medibloc/panacea-core/v2/app"
 	"math/rand"
+	"os"
+	"path/filepath"
+	"regexp"
 	"sort"
 	"strings"
+	"time"
 
 	"github.com/btcsuite/btcutil/base58"
 	"github.com/cometbft/cometbft/crypto"
@@ -651,6 +657,92 @@ func (e *didEnv) monC11GenesisNonexistentEntry() {
 	}))
 }
 
+// monC05TombstoneSurvivesUpgrade: "the tombstone survives node restarts" includes the restart into a new release, whose
+// upgrade handler runs once inside a block.  Deactivated DIDs — a fresh one, and every identifier that the source of the
+// upgrade packages mentions literally (what a handler could single out) — are still deactivated after the latest
+// upgrade has run: not found by the read operation, not creatable, the stored entry unchanged.
+func (e *didEnv) monC05TombstoneSurvivesUpgrade() {
+	e.s.Emit("mon.c05.tombstone-survives-upgrade", guard(func() string {
+		c, err := NewChain(memDB(), tmpHome(), nil, 0, nil)
+		if err != nil {
+			return "pass #no-chain"
+		}
+		repo := os.Getenv("VERIF_REPO")
+		if repo == "" {
+			repo = "/repo"
+		}
+		k := newDidKey("c05-upgrade")
+		dids := []string{didtypes.NewDID(k.pub)}
+		re := regexp.MustCompile(`did:panacea:[1-9A-HJ-NP-Za-km-z]{32,44}`)
+		filepath.Walk(filepath.Join(repo, "app"), func(path string, info os.FileInfo, err error) error {
+			if err == nil && !info.IsDir() && strings.HasSuffix(path, ".go") && !strings.HasSuffix(path, "_test.go") {
+				if bz, err := os.ReadFile(path); err == nil {
+					for _, m := range re.FindAllString(string(bz), -1) {
+						dids = append(dids, m)
+					}
+				}
+			}
+			return nil
+		})
+		t := c.Time.Add(5 * time.Second)
+		c.Begin(t)
+		g := sdk.WrapSDKContext(c.DeliverCtx())
+		ms := didkeeper.NewMsgServerImpl(c.App.DidKeeper)
+		from := sdk.AccAddress([]byte("relayer-1-address-xx")).String()
+		for _, did := range dids {
+			vmID := did + "#key1"
+			vm := &didtypes.VerificationMethod{Id: vmID, Type: didtypes.ES256K_2019, Controller: did, PublicKeyBase58: k.b58}
+			d := didtypes.NewDIDDocument(did, didtypes.WithVerificationMethods([]*didtypes.VerificationMethod{vm}),
+				didtypes.WithAuthentications([]didtypes.VerificationRelationship{rel(vmID)}))
+			sig, _ := didtypes.Sign(&d, 0, k.priv)
+			if _, err := ms.CreateDID(g, &didtypes.MsgCreateDIDRequest{Did: did, Document: &d, VerificationMethodId: vmID, Signature: sig, FromAddress: from}); err != nil {
+				return "pass #setup-create-refused"
+			}
+			sigd, _ := didtypes.Sign(&didtypes.DIDDocument{Id: did}, 0, k.priv)
+			if _, err := ms.DeactivateDID(g, &didtypes.MsgDeactivateDIDRequest{Did: did, VerificationMethodId: vmID, Signature: sigd, FromAddress: from}); err != nil {
+				return "pass #setup-deactivate-refused"
+			}
+		}
+		plan := app.Upgrades[len(app.Upgrades)-1].UpgradeName
+		planHeight := c.Height + 2
+		if err := c.App.UpgradeKeeper.ScheduleUpgrade(c.DeliverCtx(), upgradetypes.Plan{Name: plan, Height: planHeight}); err != nil {
+			return "pass #cannot-schedule"
+		}
+		c.End()
+		c.Commit()
+		before := didDumpStr(c, c.QueryCtx())
+		for i := 0; i < 2; i++ {
+			t = t.Add(5 * time.Second)
+			c.Begin(t) // a halt in the upgrade block is a panic, caught by guard
+			c.End()
+			c.Commit()
+		}
+		if c.App.UpgradeKeeper.GetDoneHeight(c.QueryCtx(), plan) != planHeight {
+			return "pass #upgrade-did-not-run"
+		}
+		if didDumpStr(c, c.QueryCtx()) != before {
+			return "fail #did-registry-changed-by-the-upgrade"
+		}
+		c.Begin(t.Add(5 * time.Second))
+		g = sdk.WrapSDKContext(c.DeliverCtx())
+		ms = didkeeper.NewMsgServerImpl(c.App.DidKeeper)
+		for _, did := range dids {
+			if _, err := c.App.DidKeeper.DID(g, &didtypes.QueryDIDRequest{DidBase64: base64.StdEncoding.EncodeToString([]byte(did))}); err == nil {
+				return "fail #deactivated-did-is-reported-as-found-after-the-upgrade"
+			}
+			vmID := did + "#key1"
+			vm := &didtypes.VerificationMethod{Id: vmID, Type: didtypes.ES256K_2019, Controller: did, PublicKeyBase58: k.b58}
+			d := didtypes.NewDIDDocument(did, didtypes.WithVerificationMethods([]*didtypes.VerificationMethod{vm}),
+				didtypes.WithAuthentications([]didtypes.VerificationRelationship{rel(vmID)}))
+			sig, _ := didtypes.Sign(&d, 0, k.priv)
+			if _, err := ms.CreateDID(g, &didtypes.MsgCreateDIDRequest{Did: did, Document: &d, VerificationMethodId: vmID, Signature: sig, FromAddress: from}); err == nil {
+				return "fail #deactivated-did-created-again-after-the-upgrade"
+			}
+		}
+		return fmt.Sprintf("pass #%d-tombstones", len(dids))
+	}))
+}
+
 func (e *didEnv) dump() {
 	e.s.Emit("did.dump", guard(func() string {
 		k := e.c.App.DidKeeper
@@ -1135,6 +1227,7 @@ func init() {
 		e.monC05GenesisSeqWrap()
 		e.monC05GenesisTombstoneResidue()
 		e.monC04OtherKeyTypes()
+		e.monC05TombstoneSurvivesUpgrade()
 		for h := 0; h < n; h++ {
 			didHistory(e, rng, ids, rel, 15+rng.Intn(30))
 		}
